@@ -38,25 +38,27 @@ type c15KExpect struct {
 	msg, custom []byte
 	maxOut      int
 	mu          sync.Mutex
-	cache       map[int][]byte
+	cache       map[int]*c15KEntry
+}
+
+type c15KEntry struct {
+	once sync.Once
+	out  []byte
 }
 
 func (c *c15KExpect) get(absorbed int, _ byte, n int) []byte {
 	c.mu.Lock()
-	o, ok := c.cache[absorbed]
-	c.mu.Unlock()
-	if ok && len(o) >= n {
-		return o
+	e := c.cache[absorbed]
+	if e == nil {
+		e = &c15KEntry{}
+		c.cache[absorbed] = e
 	}
-	want := c.maxOut
-	if n > want {
-		want = n
-	}
-	o = keccak.KT128(c.msg[:absorbed], c.custom, want)
-	c.mu.Lock()
-	c.cache[absorbed] = o
 	c.mu.Unlock()
-	return o
+	e.once.Do(func() { e.out = keccak.KT128(c.msg[:absorbed], c.custom, c.maxOut) })
+	if len(e.out) < n {
+		panic("c15: reference output cache too short")
+	}
+	return e.out
 }
 
 func c15KObserve(custom []byte) func(o c15hist.Obj, m c15hist.Model, op c15hist.Op) []string {
@@ -216,7 +218,7 @@ func TestVerifC15_k12(t *testing.T) {
 	r.Set("depth_full_tree", probe.DepthTree)
 	exps := map[int]*c15KExpect{}
 	for _, cl := range clens {
-		exps[cl] = &c15KExpect{msg: msg, custom: c15Custom(cl), cache: map[int][]byte{}}
+		exps[cl] = &c15KExpect{msg: msg, custom: c15Custom(cl), cache: map[int]*c15KEntry{}}
 	}
 	if r.Replaying() {
 		for _, l := range []byte{1, 2, 4} {
@@ -228,13 +230,13 @@ func TestVerifC15_k12(t *testing.T) {
 		}
 		return
 	}
+	var systems []*c15hist.System
 	for _, cl := range clens {
 		for _, l := range lanesSet {
-			sys := c15KSystem(r, l, cl, exps[cl])
-			st, tr := sys.Search(r, msg)
-			r.Sample(map[string]interface{}{"system": sys.Name, "states": st, "transitions": tr})
+			systems = append(systems, c15KSystem(r, l, cl, exps[cl]))
 		}
 	}
+	c15hist.SearchAll(r, systems, msg)
 	// vacuity floors: every write path and the remaining-buffer path must have run, per lane count
 	for _, l := range lanesSet {
 		p := fmt.Sprintf("k12[lanes=%d,c=0]:", l)
